@@ -3,4 +3,72 @@ import MelModel.Chain
 import MelModel.Lemmas.Counts
 import MelModel.Lemmas.FeeMult
 namespace Mel
+open Mel.Gen
+
+/-- the state returned by `nextUnsealed` has the parent's header at `height - 1` of its history -/
+theorem nextUnsealed_history (env : Env) (ss : Sealed) (basis : State)
+    (h : nextUnsealed env ss = .ok basis) :
+    ∃ hdr, headerOf env ss = .ok hdr ∧ basis.history.get (basis.height - 1) = some hdr := by
+  unfold nextUnsealed at h
+  obtain ⟨hdr, hh, h⟩ := Outcome.bind_eq_ok h
+  refine ⟨hdr, hh, ?_⟩
+  simp only at h
+  split at h <;> cases h <;> simp [AList.get_set_self]
+
+theorem lastHeaderOf_nextUnsealed (env : Env) (ss : Sealed) (basis : State)
+    (h : nextUnsealed env ss = .ok basis) (fb₁ fb₂ : Header) :
+    lastHeaderOf basis fb₁ = lastHeaderOf basis fb₂ := by
+  obtain ⟨hdr, _, hg⟩ := nextUnsealed_history env ss basis h
+  simp [lastHeaderOf, hg]
+
+theorem applyBatch_congr_lastHeader (env : Env) (s : State) (txs : List Tx) (fb₁ fb₂ : Header)
+    (h : lastHeaderOf s fb₁ = lastHeaderOf s fb₂) :
+    applyBatch env s txs fb₁ = applyBatch env s txs fb₂ := by
+  unfold applyBatch
+  simp only [h]
+
+/-- characterisation of acceptance by `applyBlock` -/
+theorem applyBlock_eq_ok_iff (env : Env) (ss ss' : Sealed) (blk : Block) :
+    applyBlock env ss blk = .ok ss' ↔
+      ∃ basis applied, nextUnsealed env ss = .ok basis ∧ 2 ≤ basis.pools.length ∧
+        applyBatch env basis blk.transactions default = .ok applied ∧
+        sealState env applied blk.action = .ok ss' ∧ headerOf env ss' = .ok blk.header := by
+  constructor
+  · intro h
+    unfold applyBlock at h
+    obtain ⟨basis, h1, h⟩ := Outcome.bind_eq_ok h
+    split at h
+    · cases h
+    · next hp =>
+      obtain ⟨applied, h2, h⟩ := Outcome.bind_eq_ok h
+      obtain ⟨sealed, h3, h⟩ := Outcome.bind_eq_ok h
+      obtain ⟨hd, h4, h⟩ := Outcome.bind_eq_ok h
+      split at h
+      · next he =>
+        cases h
+        exact ⟨basis, applied, h1, by omega, h2, h3, he ▸ h4⟩
+      · cases h
+  · rintro ⟨basis, applied, h1, hp, h2, h3, h4⟩
+    unfold applyBlock
+    have hp' : ¬ basis.pools.length < 2 := by omega
+    simp [h1, Outcome.bind, hp', h2, h3, h4]
+
+/-- the sealed state records the action it was sealed with -/
+theorem sealState_action (env : Env) (s : State) (a : Option ProposerAction) (ss : Sealed)
+    (h : sealState env s a = .ok ss) : ss.action = a := by
+  obtain ⟨s2, _, h⟩ := sealState_pre env s a ss h
+  cases a with
+  | none => simp only at h; cases h; rfl
+  | some a =>
+    simp only at h
+    obtain ⟨s3, _, h⟩ := Outcome.bind_eq_ok h
+    cases h; rfl
+
+/-- `collectProposerFee` reads only the reward destination of the action -/
+theorem collectProposerFee_congr (env : Env) (s : State) (a₁ a₂ : ProposerAction)
+    (hd : a₁.rewardDest = a₂.rewardDest) :
+    collectProposerFee env s a₁ = collectProposerFee env s a₂ := by
+  unfold collectProposerFee
+  simp only [hd]
+
 end Mel
